@@ -38,6 +38,9 @@ def run_check(prop, tier, include_root=None, write=True, quiet=False):
         mod.run(S)
         if tier == 'thorough' and hasattr(mod, 'run_thorough'):
             mod.run_thorough(S)
+        if tier == 'thorough' and include_root is None:
+            from yk import mutants
+            S.mutants = mutants.run_corpus(prop, run_check)
     except AnalysisBroken as e:
         if not quiet:
             print('ANALYSIS-BROKEN property=%s: %s' % (prop, e))
@@ -87,7 +90,13 @@ def main():
             rc, _, _, _ = run_check(p, a.tier, a.include_root, write=not a.no_write)
             worst = max(worst, rc)
         return worst
-    rc, _, _, _ = run_check(a.what, a.tier, a.include_root, write=not a.no_write)
+    rc, _, _, S = run_check(a.what, a.tier, a.include_root, write=not a.no_write)
+    if a.include_root:
+        session.drop_scratch()
+    if S.mutants is not None:
+        m = S.mutants
+        print('mutant corpus: %d applied, %d killed, missed=%s broken=%s skipped=%s' %
+              (m['applied'], m['killed'], m['missed'], m['broken'], m['skipped']))
     return rc
 
 
